@@ -77,6 +77,10 @@ idx_t dtw_best_path{{suffix}}{{suffix2}}(seq_t *wps, idx_t *i1, idx_t *i2, idx_t
                 cs--;
             }
         }
+        if (dtw_wps_value(&p, wps, rs, cs, l1, l2) == INFINITY) {
+            // No cell with a finite value follows the marked cells: there is no path to trace
+            return 0;
+        }
         return dtw_best_path_customstart(wps, i1, i2, l1, l2, rs, cs, settings);
     }
     {%- endif %}
